@@ -284,6 +284,8 @@ def run(ctx):
                 if has_sentinel(v) and any(rowlike(a) for a in v) and \
                         _flag_guarded(fn, pm, ev.node, getattr(ev.node, 'value', None)):
                     pass
+                elif has_sentinel(v) and any(rowlike(a) for a in v) and _assigned_in_this_pass(pm, ev.node, fn.node):
+                    pass        # bound anew, on every path, in the very pass of the data loop that yields it
                 elif has_sentinel(v) and any(rowlike(a) for a in v):
                     if real:
                         n_use += 1
@@ -579,3 +581,42 @@ def r2011(ctx, rep):
         rep.add('R20.11', (o.module, o.qualname), o.construct, o.status, o.message, o.lineno, o.detail)
     if not n:
         raise AnalysisError('anchor vanished: the key-less branch of the simple aggregate')
+
+
+def _assigned_in_this_pass(pm, ynode, fn_node):
+    """`yield X` inside a loop, X a plain name that is (re)bound on every path in the same block before the yield: the value
+    is this pass's, whatever X held before the loop"""
+    y = ynode.value if isinstance(ynode, ast.Expr) else ynode
+    val = getattr(y, 'value', None)
+    if not isinstance(val, ast.Name):
+        return False
+    name = val.id
+    stmt = ynode
+    while id(stmt) in pm and not isinstance(stmt, ast.stmt):
+        stmt = pm[id(stmt)]
+    parent = pm.get(id(stmt))
+    in_loop = False
+    cur = stmt
+    while id(cur) in pm and cur is not fn_node:
+        cur = pm[id(cur)]
+        if isinstance(cur, (ast.For, ast.While)):
+            in_loop = True
+            break
+    if not in_loop or parent is None:
+        return False
+
+    def binds_all_paths(s):
+        if isinstance(s, ast.Assign):
+            return any(isinstance(t, ast.Name) and t.id == name for t in s.targets)
+        if isinstance(s, ast.If):
+            return bool(s.orelse) and any(binds_all_paths(b) for b in s.body) and any(binds_all_paths(b) for b in s.orelse)
+        return False
+    for field in ('body', 'orelse', 'finalbody'):
+        blk = getattr(parent, field, None)
+        if isinstance(blk, list) and any(b is stmt for b in blk):
+            for b in blk:
+                if b is stmt:
+                    break
+                if binds_all_paths(b):
+                    return True
+    return False
